@@ -741,6 +741,150 @@ Section Total.
     apply good_ret; auto.
   Qed.
 
+  (* ---- GSUB6 ---- *)
+  Lemma chain_peek_good : forall ts, toksL ts ->
+    exists pk ts', chain_peek endl ts = POk (pk, ts') /\ toksL ts' /\ (length ts' <= length ts)%nat.
+  Proof.
+    intros ts H. unfold chain_peek. unfold bind at 1. rewrite read_eq.
+    destruct (ityp_eqb (ttyp (peek_tok endl ts)) TBar) eqn:E.
+    - assert (X : ttyp (peek_tok endl ts) <> TEOF) by (intros X; rewrite X in E; discriminate).
+      pose proof (peek_not_eof_len ts X) as L. pose proof (tl_ok0 ts H) as O1.
+      destruct (peek_good (tl ts) O1) as (ts1 & Ep & O2 & L2).
+      unfold bind at 1. unfold bind at 1. rewrite Ep. unfold ret at 1. unfold bind at 1.
+      assert (Hu : exists ts2, unread endl (peek_tok endl ts) ts1 = POk (tt, ts2) /\ toksL ts2 /\ (length ts2 <= S (length ts1))%nat).
+      { pose proof (peek_ok ts H) as Hp. destruct ts1 as [|a b]; cbn [unread].
+        - destruct (is_syn_eof endl (peek_tok endl ts)); eexists; repeat split; eauto; try constructor; auto; cbn; lia.
+        - eexists. repeat split; eauto. constructor; auto. }
+      destruct Hu as (ts2 & Eu & O3 & L3). rewrite Eu. unfold ret. eexists. eexists. repeat split; eauto. lia.
+    - unfold bind at 1. unfold ret at 1. unfold bind at 1.
+      destruct (unread_peek ts H) as (ts' & Eu & Ok & Len). rewrite Eu. unfold ret. eexists. eexists. eauto.
+  Qed.
+
+  Lemma def_class_lt : forall fuel st ts n, toksL ts -> (length ts <= n)%nat -> (n < fuel)%nat ->
+    goodlt n (def_class F endl fuel st ts).
+  Proof.
+    intros fuel st ts n H Hl Hf. unfold def_class.
+    apply (goodlt_bind1 _ _ _ n n); [apply parse_class_def_lt; auto|lia|]. intros d ts1 O1 L1.
+    destruct (existsb _ (fst st)); [gf|]. destruct (existsb _ (snd d)); [gf|].
+    apply (good_bind_opt TEOL _ ts1 (length ts1) (length ts1)); auto; intros ts2 O2 L2; apply good_ret; auto; lia.
+  Qed.
+
+  Lemma chain1_loop_good : forall fuel data ts n, toksL ts -> (length ts <= n)%nat -> (n < fuel)%nat ->
+    good n (chain1_loop F endl fuel data ts).
+  Proof.
+    induction fuel as [|f IH]; intros data ts n H Hl Hf; [lia|]. cbn [chain1_loop].
+    apply (good_bind _ _ _ n); [apply rgl_good'; auto|]. intros bt ts1 O1 L1.
+    apply (good_bind_lt _ _ _ n); [apply required_lt; auto|]. intros _ ts2 O2 L2.
+    apply (good_bind _ _ _ (length ts2)); [apply rgl_good'; auto; lia|]. intros inp ts3 O3 L3.
+    apply (good_bind _ _ _ (length ts3)); [apply goodlt_good; apply required_lt; auto|]. intros _ ts4 O4 L4.
+    apply (good_bind _ _ _ (length ts4)); [apply rgl_good'; auto; lia|]. intros la ts5 O5 L5.
+    apply (good_bind _ _ _ (length ts5)); [apply goodlt_good; apply required_lt; auto|]. intros _ ts6 O6 L6.
+    apply (good_bind _ _ _ (length ts6)); [apply read_nested_good; auto; lia|]. intros acts ts7 O7 L7.
+    destruct inp as [|key rest].
+    { unfold bind. rewrite read_eq. gf. }
+    apply (good_bind_opt TComma _ ts7 (length ts2) n); auto; try lia.
+    - intros ts8 O8 L8. apply (good_bind_opt TEOL _ ts8 (length ts8) n); auto;
+        intros ts9 O9 L9; apply (good_weaken (length ts9)); try lia; apply IH; auto; lia.
+    - intros ts8 O8 L8. apply good_ret; auto. lia.
+  Qed.
+
+  Lemma chain2_loop_good : forall fuel btn inn lan data ts n, toksL ts -> (length ts <= n)%nat -> (n < fuel)%nat ->
+    good n (chain2_loop endl fuel btn inn lan data ts).
+  Proof.
+    induction fuel as [|f IH]; intros btn inn lan data ts n H Hl Hf; [lia|]. cbn [chain2_loop].
+    apply (good_bind _ _ _ n); [apply rcn_good; auto|]. intros bnm ts1 O1 L1.
+    apply (good_bind_lt _ _ _ n); [apply required_lt; auto|]. intros _ ts2 O2 L2.
+    apply (good_bind _ _ _ (length ts2)); [apply rcn_good; auto; lia|]. intros inm ts3 O3 L3.
+    apply (good_bind _ _ _ (length ts3)); [apply goodlt_good; apply required_lt; auto|]. intros _ ts4 O4 L4.
+    apply (good_bind _ _ _ (length ts4)); [apply rcn_good; auto; lia|]. intros lnm ts5 O5 L5.
+    apply (good_bind _ _ _ (length ts5)); [apply goodlt_good; apply required_lt; auto|]. intros _ ts6 O6 L6.
+    apply (good_bind _ _ _ (length ts6)); [apply read_nested_good; auto; lia|]. intros acts ts7 O7 L7.
+    destruct (is_nil inm); [gf|].
+    destruct (classes_of inn inm) as [[|c rest]|]; try gf.
+    destruct (classes_of btn bnm) as [bc|]; try gf.
+    destruct (classes_of lan lnm) as [lc|]; try gf.
+    apply (good_bind_opt TComma _ ts7 (length ts2) n); auto; try lia.
+    - intros ts8 O8 L8. apply (good_bind_opt TEOL _ ts8 (length ts8) n); auto;
+        intros ts9 O9 L9; apply (good_weaken (length ts9)); try lia; apply IH; auto; lia.
+    - intros ts8 O8 L8. apply good_ret; auto. lia.
+  Qed.
+
+  Lemma sets_until_good : forall fuel stop acc ts n, ityp_eqb TEOF stop = false ->
+    toksL ts -> (length ts <= n)%nat -> (n < fuel)%nat ->
+    good n (sets_until F endl fuel stop acc ts).
+  Proof.
+    induction fuel as [|f IH]; intros stop acc ts n Hs H Hl Hf; [lia|]. cbn [sets_until].
+    apply (good_bind_opt stop _ ts n n); auto.
+    - intros ts1 O1 L1. apply good_ret; auto. lia.
+    - intros ts1 O1 L1. apply (good_bind_lt _ _ _ n); [apply rgs_lt; auto|]. intros gs ts2 O2 L2.
+      apply (good_weaken (length ts2)); [lia|]. apply IH; auto. lia.
+  Qed.
+
+  Lemma sets_then_good : forall fuel stop acc ts n, ityp_eqb TEOF stop = false ->
+    toksL ts -> (length ts <= n)%nat -> (n < fuel)%nat ->
+    good n (sets_then F endl fuel stop acc ts).
+  Proof.
+    induction fuel as [|f IH]; intros stop acc ts n Hs H Hl Hf; [lia|]. cbn [sets_then].
+    apply (good_bind_lt _ _ _ n); [apply rgs_lt; auto|]. intros gs ts1 O1 L1.
+    apply (good_bind_opt stop _ ts1 (length ts1) n); auto.
+    - intros ts2 O2 L2. apply good_ret; auto. lia.
+    - intros ts2 O2 L2. apply (good_weaken (length ts2)); [lia|]. apply IH; auto. lia.
+  Qed.
+
+  Lemma chainctx_loop_good : forall fuel ic bc lc subs ts n,
+    toksL ts -> (length ts <= n)%nat -> (n < fuel)%nat ->
+    good n (chainctx_loop F endl fuel ic bc lc subs ts).
+  Proof.
+    induction fuel as [|f IH]; intros ic bc lc subs ts n H Hl Hf; [lia|]. cbn [chainctx_loop].
+    destruct (chain_peek_good ts H) as (pk & ts1 & Ep & O1 & L1). unfold bind at 1. rewrite Ep.
+    assert (Hcls : forall st (k : ctable -> P (list subtable)),
+               (forall st' ts2, toksL ts2 -> (S (length ts2) <= length ts1)%nat -> good n (k st' ts2)) ->
+               good n ((st' <- def_class F endl (S f) st ;; k st') ts1)).
+    { intros st k Hk. apply (good_bind_lt _ _ _ (length ts1)); [apply def_class_lt; auto; lia|].
+      intros st' ts2 O2 L2. apply Hk; auto. }
+    cbv zeta.
+    destruct (is_ident (fst pk) k_inputclass).
+    { apply Hcls. intros st' ts2 O2 L2. apply (good_weaken (length ts2)); [lia|]. apply IH; auto. lia. }
+    destruct (is_ident (fst pk) k_backtrackclass).
+    { apply Hcls. intros st' ts2 O2 L2. apply (good_weaken (length ts2)); [lia|]. apply IH; auto. lia. }
+    destruct (is_ident (fst pk) k_lookaheadclass).
+    { apply Hcls. intros st' ts2 O2 L2. apply (good_weaken (length ts2)); [lia|]. apply IH; auto. lia. }
+    assert (Hk : forall (r : subtable * ctable * ctable * ctable) ts2, toksL ts2 -> (length ts2 <= length ts1)%nat ->
+              good n ((let '(sub, ic', bc', lc') := r in
+                       b <- optional endl TOr ;;
+                       if b then (optional endl TEOL ;;; chainctx_loop F endl f ic' bc' lc' (subs ++ [sub]))
+                       else ret (subs ++ [sub])) ts2)).
+    { intros [[[sub ic'] bc'] lc'] ts2 O2 L2.
+      apply (good_bind_opt TOr _ ts2 (length ts2) n); auto.
+      - intros ts3 O3 L3. apply (good_bind_opt TEOL _ ts3 (length ts3) n); auto;
+          intros ts4 O4 L4; apply (good_weaken (length ts4)); try lia; apply IH; auto; lia.
+      - intros ts3 O3 L3. apply good_ret; auto. lia. }
+    apply (good_bind _ _ _ (length ts1)); [|intros r ts2 O2 L2; apply Hk; auto].
+    destruct (ityp_eqb (snd pk) TSlash).
+    - apply (good_bind _ _ _ (length ts1)); [apply goodlt_good; apply required_lt; auto|]. intros _ ts2 O2 L2.
+      apply (good_bind _ _ _ (length ts2)); [apply rgl_good'; auto; lia|]. intros first ts3 O3 L3.
+      apply (good_bind _ _ _ (length ts3)); [apply goodlt_good; apply required_lt; auto|]. intros _ ts4 O4 L4.
+      apply (good_bind _ _ _ (length ts4)); [apply chain2_loop_good; auto; lia|]. intros data ts5 O5 L5.
+      apply good_ret; auto. lia.
+    - destruct (ityp_eqb (snd pk) TLBr).
+      + apply (good_bind _ _ _ (length ts1)); [apply sets_until_good; auto; lia|]. intros bt ts2 O2 L2.
+        apply (good_bind _ _ _ (length ts2)); [apply sets_then_good; auto; lia|]. intros inp ts3 O3 L3.
+        apply (good_bind _ _ _ (length ts3)); [apply sets_until_good; auto; lia|]. intros la ts4 O4 L4.
+        apply (good_bind _ _ _ (length ts4)); [apply read_nested_good; auto; lia|]. intros acts ts5 O5 L5.
+        apply good_ret; auto. lia.
+      + apply (good_bind _ _ _ (length ts1)); [apply chain1_loop_good; auto; lia|]. intros data ts2 O2 L2.
+        apply good_ret; auto.
+  Qed.
+
+  Lemma read_chainctx_good : forall fuel ty ts n, toksL ts -> (length ts <= n)%nat -> (n < fuel)%nat ->
+    good n (read_chainctx F endl fuel ty ts).
+  Proof.
+    intros fuel ty ts n H Hl Hf. unfold read_chainctx.
+    apply (good_bind _ _ _ n); [apply header_good; auto|]. intros fl ts1 O1 L1.
+    apply (good_bind _ _ _ n); [apply chainctx_loop_good; auto|]. intros res ts2 O2 L2.
+    apply good_ret; auto.
+  Qed.
+
   Lemma parse_loop_good : forall fuel acc ts n, toksL ts -> (length ts <= n)%nat -> (n < fuel)%nat ->
     good n (parse_loop F endl fuel acc ts).
   Proof.
@@ -765,6 +909,7 @@ Section Total.
       + apply (Hk (read_gsub3 F endl)); auto. intros; apply read_gsub3_good; auto.
       + apply (Hk (read_gsub4 F endl)); auto. intros; apply read_gsub4_good; auto.
       + apply (Hk (fun fu => read_seqctx F endl fu 5)); auto. intros; apply read_seqctx_good; auto.
+      + apply (Hk (fun fu => read_chainctx F endl fu 6)); auto. intros; apply read_chainctx_good; auto.
       + apply (Hk (read_gpos1 F endl)); auto. intros; apply read_gpos1_good; auto.
     - destruct Hs as [O1 L1]; [discriminate|]. apply (good_weaken (length (tl ts))); [lia|]. apply IH; auto. lia.
   Qed.
